@@ -266,10 +266,18 @@ func makeTarget(
 		if err != nil {
 			return nil, err
 		}
-		if last := fields[len(fields)-1]; last.IsList() {
+		last := fields[len(fields)-1]
+		if last.IsList() {
 			return nil, fmt.Errorf(
 				"unexpected path variable %q: cannot be a repeated field",
 				variable.fieldPath,
+			)
+		}
+		if !isParameterType(last) {
+			// A message (or map) could never be set from or rendered to a URL path.
+			return nil, fmt.Errorf(
+				"unexpected path variable %q: must be a scalar or a well-known type with a scalar representation, not %s",
+				variable.fieldPath, last.Message().FullName(),
 			)
 		}
 		routeTargetVars[i] = routeTargetVar{
